@@ -2,9 +2,12 @@ use crate::config::Config;
 use crate::error::CgtError;
 use crate::matcher::{MatchResult, Matcher};
 use crate::models::*;
+#[cfg(cgt_verif)]
+use crate::verif_map::HashMap;
 use cgt_money::FxCache;
 use chrono::NaiveDate;
 use rust_decimal::Decimal;
+#[cfg(not(cgt_verif))]
 use std::collections::HashMap;
 
 /// Calculate CGT report.
